@@ -175,6 +175,28 @@ Definition patch (p : previous) (ci : N) (stk : list sitem) : outcome unit (list
       end
   end.
 
+(* The same back-patching in the `seen_before(&current.elem)` early exit of the unprocessed
+   branch (commit 7ce2109): no assertions there; Root does nothing whatever the stack is. *)
+Definition patch_seen (p : previous) (ci : N) (stk : list sitem) : outcome unit (list sitem) :=
+  match p with
+  | Root => Ok stk
+  | ParentLeft =>
+      match stk with
+      | q :: r => Ok (set_left q ci :: r)
+      | [] => Panic 5
+      end
+  | ParentRight =>
+      match stk with
+      | q :: r => Ok (set_right q ci :: r)
+      | [] => Panic 5
+      end
+  | SiblingLeft =>
+      match stk with
+      | s :: q :: r => Ok (s :: set_left q ci :: r)
+      | _ => Panic 5
+      end
+  end.
+
 (* one iteration of the `loop` in PostOrderIter::next *)
 Definition po_step (st : po_state) : po_res :=
   match po_stack st with
@@ -183,6 +205,15 @@ Definition po_step (st : po_state) : po_res :=
       let index := po_index st in
       let trk := po_trk st in
       if negb (s_processed current) then
+        (* the item may have been yielded since it was pushed: only point the parent at it *)
+        match seen_before trk (s_elem current) with
+        | Some seen_index =>
+            match patch_seen (s_prev current) seen_index stk with
+            | Ok stk' => PCont (mk_po index stk' trk)
+            | Panic c => PPanic c
+            | _ => PPanic 7
+            end
+        | None =>
         let current := set_processed current in
         match item_left_child trk current, item_right_child trk current with
         | CNone, _ =>
@@ -199,6 +230,7 @@ Definition po_step (st : po_state) : po_res :=
             PCont (mk_po index (unprocessed c ParentRight :: set_left current idx :: stk) trk)
         | CNew lc, CNew rc =>
             PCont (mk_po index (unprocessed lc SiblingLeft :: unprocessed rc ParentRight :: current :: stk) trk)
+        end
         end
       else
         let '(rec, trk') := record trk (s_elem current) index in
